@@ -233,11 +233,23 @@ pub fn gen_keypath(r: &mut Rng, v: &Value) -> Vec<jsonb::keypath::KeyPath<'stati
     out
 }
 
+/// the request stream of a property: deep documents and the small-scope exhaustive block first, then
+/// the generated stream (`gen_sub`, which other properties' streams also draw from)
 pub fn gen(prop: &str, tier: &str, seed: u64) -> Out {
+    let mut r = Rng::new(seed ^ 0x5ca1ab1e ^ prop.bytes().fold(0u64, |a, b| a.wrapping_mul(131).wrapping_add(b as u64)));
+    let mut o = Out::new();
+    nested_lines(prop, &mut r, &mut o);
+    small_scope_lines(prop, tier, &mut r, &mut o);
+    let mut rest = gen_sub(prop, tier, seed);
+    o.lines.append(&mut rest.lines);
+    rest.lines = o.lines;
+    rest
+}
+
+pub fn gen_sub(prop: &str, tier: &str, seed: u64) -> Out {
     let mut o = Out::new();
     let mut r = Rng::new(seed ^ prop.bytes().fold(0u64, |a, b| a.wrapping_mul(131).wrapping_add(b as u64)));
     let c = cfg(tier);
-    nested_lines(prop, &mut r, &mut o);
     match prop {
         "C01" => {
             for n in all_numbers() {
@@ -991,7 +1003,7 @@ pub fn gen(prop: &str, tier: &str, seed: u64) -> Out {
             // every document function, every other argument, all 2^k text/JSONB choices: take the
             // request streams of the other properties and wrap each doc-taking op
             for sub in ["C05", "C06", "C13", "C04", "C12", "C14", "C03", "C08"] {
-                let o2 = gen(sub, tier, seed ^ 0x11);
+                let o2 = gen_sub(sub, tier, seed ^ 0x11);
                 for l in o2.lines {
                     if l.starts_with("t:") || l.starts_with("tj ") || l.starts_with("spec:") || l.starts_with("select ") || l.starts_with("pexists") || l.starts_with("pmatch") || l.starts_with("cmplaws") || l.starts_with("containslaws") || l.starts_with("keyorder") || l.starts_with("tostrcheck") || l.starts_with("strf64") || l.starts_with("barr") || l.starts_with("bobj") { continue; }
                     if r.chance(if tier == "thorough" { 2 } else { 1 }, 6) {
@@ -1276,7 +1288,7 @@ pub fn gen(prop: &str, tier: &str, seed: u64) -> Out {
             // every other buffer-writing function, with non-empty prior content: the oracle
             // (spec answer) does not depend on the prefix, so agreement = "only appends"
             for sub in ["C06", "C13"] {
-                let o2 = gen(sub, tier, seed ^ 0x17);
+                let o2 = gen_sub(sub, tier, seed ^ 0x17);
                 for l in o2.lines {
                     let mut it = l.split(' ');
                     let _op = it.next();
@@ -1285,12 +1297,12 @@ pub fn gen(prop: &str, tier: &str, seed: u64) -> Out {
             }
             // the modes oracle (batches appended into buffers filled by earlier calls, predicate paths in between)
             {
-                let o2 = gen("C15", tier, seed ^ 0x17);
+                let o2 = gen_sub("C15", tier, seed ^ 0x17);
                 for l in o2.lines { if l.starts_with("modes ") && r.chance(1, 2) { o.push(l.clone()); } }
             }
             // the same editors with JSON-text arguments (their text branch writes the buffer itself)
             {
-                let o2 = gen("C06", tier, seed ^ 0x171);
+                let o2 = gen_sub("C06", tier, seed ^ 0x171);
                 for l in o2.lines {
                     let f: Vec<&str> = l.split(' ').collect();
                     let docpos: &[usize] = match f[0] { "concat" => &[2, 3], "delname" | "delidx" | "delkp" | "strip" | "objdel" | "objpick" | "distinct" => &[2], "arrins" | "objins" => &[2, 4], _ => &[] };
@@ -1312,7 +1324,7 @@ pub fn gen(prop: &str, tier: &str, seed: u64) -> Out {
             // selector writers (data holds earlier results, the offsets vector may be fresh) and the
             // comparable-key writer
             for sub in ["C08", "C14"] {
-                let o2 = gen(sub, tier, seed ^ 0x17);
+                let o2 = gen_sub(sub, tier, seed ^ 0x17);
                 for l in o2.lines {
                     let f: Vec<&str> = l.split(' ').collect();
                     let keep = match f[0] {
@@ -1356,4 +1368,81 @@ fn nested_lines(prop: &str, r: &mut Rng, o: &mut Out) {
             _ => {}
         }
     }
+}
+
+/// small-scope exhaustive requests: every document with at most 4 values over a 7-scalar, 3-key
+/// alphabet (6435 documents) through the one-document functions, every ordered pair of the documents
+/// with at most 2 values (45 documents) through the two-document functions, every document with at
+/// most 3 values (513) against a fixed list of paths and through every proper prefix of its encoding
+fn small_scope_lines(prop: &str, tier: &str, r: &mut Rng, o: &mut Out) {
+    let _ = tier;
+    let both = |o: &mut Out, l: String| { o.push(format!("spec:{}", l)); o.push(l); };
+    let d4 = || enum_docs(4);
+    let d3 = || enum_docs(3);
+    let d2 = || enum_docs(2);
+    match prop {
+        "C01" => for v in d4() { let t = show_value(&v); o.push(format!("enc {}", t)); o.push(format!("encspec {}", t)); o.push(format!("rtdec {}", t)); o.push(format!("dec {}", hex(&v.to_vec()))); },
+        "C03" => for v in d4() { let d = hex(&v.to_vec()); let f = crate::ops_text::fmt_table(&v); o.push(format!("tostr {} {}", d, f)); o.push(format!("topretty {} {}", d, f)); o.push(format!("tostrcheck {} {}", d, f)); },
+        "C05" => for v in d4() {
+            let d = hex(&v.to_vec());
+            if crate::props::count_nodes(&v) > 3 { for op in ["keys", "vals", "typeof"] { o.push(format!("{} {}", op, d)); } o.push(format!("getidx {} 1", d)); o.push(format!("getkp {} i-1,n61", d)); continue; }
+            for op in ["arrlen", "keys", "each", "vals", "typeof"] { both(o, format!("{} {}", op, d)); }
+            for i in 0..3 { both(o, format!("getidx {} {}", d, i)); }
+            for n in ["-", "61", "41"] { both(o, format!("getname {} {} 0", d, n)); both(o, format!("getname {} {} 1", d, n)); }
+            for kp in ["i0", "i-1", "n61", "q-", "i1,i0", "n61,i0", "i0,n61"] { both(o, format!("getkp {} {}", d, kp)); }
+            both(o, format!("existsall {} 61", d)); both(o, format!("existsany {} -;62", d));
+            both(o, format!("travstr {} eq:61", d)); both(o, format!("travstr {} eq:-", d));
+        },
+        "C06" => {
+            for v in d3() {
+                let d = hex(&v.to_vec());
+                both(o, format!("strip - {}", d));
+                for i in [-2, -1, 0, 1] { both(o, format!("delidx - {} {}", d, i)); both(o, format!("arrins 0a {} {} 2000000000000000", d, i)); }
+                for n in ["61", "-"] { both(o, format!("delname - {} {}", d, n)); both(o, format!("objins - {} {} 2000000000000000 0", d, n)); both(o, format!("objins 0b {} {} 2000000000000000 1", d, n)); }
+                for kp in ["i0", "i-1", "n61", "i0,i0", "n61,n61", "i0,n61"] { both(o, format!("delkp - {} {}", d, kp)); }
+                both(o, format!("objdel - {} 61", d)); both(o, format!("objpick - {} 61;-", d)); both(o, format!("objpick 0c {} []", d));
+            }
+            let ds = d2();
+            for a in &ds { for b in &ds { both(o, format!("concat - {} {}", hex(&a.to_vec()), hex(&b.to_vec()))); } }
+        }
+        "C13" => {
+            for v in d3() { both(o, format!("distinct - {}", hex(&v.to_vec()))); }
+            let ds = d2();
+            for a in &ds { for b in &ds {
+                let (ha, hb) = (hex(&a.to_vec()), hex(&b.to_vec()));
+                both(o, format!("inter - {} {}", ha, hb)); both(o, format!("except - {} {}", ha, hb)); both(o, format!("overlap {} {}", ha, hb));
+            } }
+        }
+        "C04" | "C12" | "C14" => {
+            let ds = d2();
+            for a in &ds { for b in &ds {
+                let (ha, hb) = (hex(&a.to_vec()), hex(&b.to_vec()));
+                match prop { "C04" => both(o, format!("cmp {} {}", ha, hb)), "C12" => both(o, format!("contains {} {}", ha, hb)), _ => o.push(format!("keyorder {} {}", ha, hb)) }
+            } }
+            if prop == "C14" { for v in d3() { o.push(format!("cmpkey - {}", hex(&v.to_vec()))); } }
+            // one side with three values: nested containers against flat ones
+            if prop != "C14" { let d3s = d3(); for a in d3s.iter() { if !r.chance(1, 4) { continue; } for b in ds.iter() { if !r.chance(1, 4) { continue; }
+                let (ha, hb) = (hex(&a.to_vec()), hex(&b.to_vec()));
+                let opn = if prop == "C04" { "cmp" } else { "contains" };
+                both(o, format!("{} {} {}", opn, ha, hb)); both(o, format!("{} {} {}", opn, hb, ha));
+            } } }
+        }
+        "C08" | "C15" => for v in d3() {
+            let d = hex(&v.to_vec());
+            for p in ["$", "$.a", "$[0]", "$[*]", "$.*", "$[last]", "$[0 to 1]", "$?(@ == 1)", "$.a[*]", "$[*].a", "$ == 1", "$.*[*]", "$[*]?(exists(@.a))"] {
+                let ph = hex(p.as_bytes());
+                if prop == "C15" { o.push(format!("modes {} {}", d, ph)); } else { both(o, format!("select all - {} {}", d, ph)); o.push(format!("getpath - {} {}", d, ph)); }
+            }
+        },
+        "C10" => for v in d3() { let b = v.to_vec(); for k in 0..b.len() { o.push(format!("dec {}", hex(&b[..k]))); o.push(format!("fsreject {}", hex(&b[..k]))); } o.push(format!("dec {}", hex(&b))); },
+        "C11" => for v in d3() { let t = hex(jsonb::to_string(&v.to_vec()).as_bytes()); for op in ["arrlen", "keys", "typeof", "toserde", "each", "vals", "asnum", "asstr"] { o.push(format!("tjtext {} {}", op, t)); } },
+        "C14x" => {}
+        "C17" => for v in d3() { o.push(format!("encinto 0102 {}", show_value(&v))); o.push(format!("spec:encinto 0102 {}", show_value(&v))); },
+        "C19" => for v in d4() { let d = hex(&v.to_vec()); o.push(format!("toserde {}", d)); o.push(format!("spec:toserde {}", d)); o.push(format!("toserdeobj {}", d)); o.push(format!("serdecheck {}", d)); },
+        _ => {}
+    }
+}
+
+pub fn count_nodes(v: &Value) -> usize {
+    match v { Value::Array(a) => 1 + a.iter().map(count_nodes).sum::<usize>(), Value::Object(o) => 1 + o.values().map(count_nodes).sum::<usize>(), _ => 1 }
 }
